@@ -64,6 +64,7 @@ class Design:
     self.netinfo = []    # dict(writer, members, kind)  (what the generator intends)
     self.labels = []     # injected defects
     self.safe_src = set()  # objects whose value does not depend on any update block
+    self.funcs = []        # @s.func helpers: dict(id, comp, stmts=[(target, op, rhs)], reads=[obj], calls=[func id]); blocks call them through b['calls']
     self.tags = []         # directed shapes present in the design (histograms)
     self.nest = {}         # slice object -> chain of relative slices it is written as in connect statements (x[4:8][0:2] for x[4:6])
 
@@ -274,9 +275,40 @@ class Design:
     return sorted(out, key=repr)
 
   def new_blk(self, comp, ff):
-    b = dict(id=len(self.blks), comp=comp, ff=ff, stmts=[], reads=[])
+    b = dict(id=len(self.blks), comp=comp, ff=ff, stmts=[], reads=[], calls=[])
     self.blks.append(b)
     return b
+
+  def new_func(self, comp):
+    f = dict(id=len(self.funcs), comp=comp, stmts=[], reads=[], calls=[])
+    self.funcs.append(f)
+    return f
+
+  # the functions a block reaches and what it therefore reads and writes (computed here, not taken from pymtl3)
+  def reach_funcs(self, roots):
+    seen, todo = [], list(roots)
+    while todo:
+      f = todo.pop()
+      if f in seen: continue
+      seen.append(f); todo.extend(self.funcs[f]['calls'])
+    return sorted(seen)
+
+  def has_call_cycle(self):
+    def dfs(f, path):
+      if f in path: return True
+      return any(dfs(g, path + [f]) for g in self.funcs[f]['calls'])
+    return any(dfs(f, []) for b in self.blks for f in b.get('calls', []))
+
+  def eff_stmts(self, b):
+    out = list(b['stmts'])
+    for f in self.reach_funcs(b.get('calls', [])):
+      out += [(t, 'ff' if b['ff'] else 'at', rhs) for (t, op, rhs) in self.funcs[f]['stmts']]
+    return out
+
+  def eff_reads(self, b):
+    out = list(b['reads']) + list(b.get('extra_reads', []))
+    for f in self.reach_funcs(b.get('calls', [])): out += self.funcs[f]['reads']
+    return out
 
   def rhs_for(self, blk, target, rng):
     t = self.otype(target)
@@ -317,6 +349,9 @@ class Design:
     for b in self.blks:
       for (t, op, rhs) in b['stmts']: add(t)
       for r in b['reads'] + b.get('extra_reads', []): add(r)
+    for f in self.funcs:
+      for (t, op, rhs) in f['stmts']: add(t)
+      for r in f['reads']: add(r)
     return out
 
   def model_args(self, conn_order=None, flips=None, blk_order=None):
@@ -341,7 +376,9 @@ class Design:
     for i in (range(len(self.blks)) if blk_order is None else blk_order):
       b = self.blks[i]
       bl.append([b['comp'], b['ff'], [[oid[t], op] for (t, op, rhs) in b['stmts']], [oid[r] for r in b['reads'] + b.get('extra_reads', [])]])
-    return objs, (['objs'] + ol, ['par'] + par, ['conns'] + cl, ['blks'] + bl)
+    fl = [[[oid[t] for (t, op, rhs) in f['stmts']], [oid[r] for r in f['reads']], list(f['calls'])] for f in self.funcs]
+    bc = [list(self.blks[i].get('calls', [])) for i in (range(len(self.blks)) if blk_order is None else blk_order)]
+    return objs, (['objs'] + ol, ['par'] + par, ['conns'] + cl, ['blks'] + bl, ['funcs'] + fl, ['bcalls'] + bc)
 
   def model_line(self, **kw):
     objs, args = self.model_args(**kw)
@@ -358,8 +395,12 @@ class Design:
       if style and a.startswith('s.') and not a.endswith(']') and self.is_plain(c['b'] if flip else c['a']):
         return [f'    {a} //= {b}']
       return [f'    connect( {a}, {b} )']
-    b = self.blks[st[1]]
-    lines = [f'    @update_ff' if b['ff'] else '    @update', f'    def blk{b["id"]}():']
+    if st[0] == 'func':
+      b = self.funcs[st[1]]
+      lines = ['    @s.func', f'    def fn{b["id"]}():']
+    else:
+      b = self.blks[st[1]]
+      lines = [f'    @update_ff' if b['ff'] else '    @update', f'    def blk{b["id"]}():']
     for (t, op, rhs) in b['stmts']:
       tgt = self.oexpr(t, comp)
       if op == 'for':
@@ -372,6 +413,9 @@ class Design:
       lines.append(f'      {tgt} {sym} {r}')
     for r in b.get('extra_reads', []):
       lines.append(f'      tmp = {self.oexpr(r, comp)}')
+    for c in b.get('calls', []):
+      lines.append(f'      fn{c}()')
+    if len(lines) == 2: lines.append('      pass')
     return lines
 
   def is_plain(self, o):
@@ -383,6 +427,7 @@ class Design:
     for c in self.comps:
       sts = [('conn', i) for i, cn in enumerate(self.conns) if cn['at'] == c['idx'] and not cn['auto']]
       sts += [('blk', b['id']) for b in self.blks if b['comp'] == c['idx']]
+      sts += [('func', f['id']) for f in self.funcs if f['comp'] == c['idx']]
       if not identity: rng.shuffle(sts)
       per[c['idx']] = sts
     flips = {i: (not identity and rng.random() < 0.5) for i in range(len(self.conns)) if not self.conns[i]['auto']}
@@ -589,6 +634,7 @@ def gen_legal(rng, nnets=None, levels=None, extra_blocks=True, d1=False):
   if rng.random() < 0.35: add_slice_key_collision(d, rng)
   if rng.random() < 0.3: add_deep_override(d, rng, 'legal')
   assign_nests(d, rng)
+  if rng.random() < 0.4: helperize(d, rng)
   return d
 
 def make_nest(rng, lo, hi, W):
@@ -702,6 +748,103 @@ def add_deep_override(d, rng, mode='legal'):
   d.tags.append(f'deep-override:{shape}:{mode}')
   return 'MultiWriterError'
 
+def _move_stmt(d, blk, idx, func):
+  """move statement idx of an update block into a helper function (the block keeps reaching it through its calls)"""
+  st = blk['stmts'].pop(idx)
+  func['stmts'].append(st)
+  if st[2][0] == 'r':
+    blk['reads'].remove(st[2][1]); func['reads'].append(st[2][1])
+
+def helperize(d, rng):
+  """let some @update blocks perform part of their writes/reads through @s.func helpers: chains of call depth 1-3,
+  diamonds (two callees sharing a callee), and a write-free helper shared by two blocks of a component through
+  different intermediate helpers. Every signal bit keeps its single driver (the block that reaches the helper)."""
+  done = False
+  for blk in list(d.blks):
+    if blk['ff'] or not blk['stmts'] or rng.random() < 0.5: continue
+    if any(op != 'at' for (_, op, _) in blk['stmts']): continue
+    comp = blk['comp']
+    shape = rng.choice(['chain', 'chain', 'diamond'])
+    if shape == 'chain':
+      fs = [d.new_func(comp) for _ in range(rng.randint(1, 3))]
+      for a, b in zip(fs, fs[1:]): a['calls'].append(b['id'])
+      blk['calls'].append(fs[0]['id'])
+    else:
+      fa, fb, g = d.new_func(comp), d.new_func(comp), d.new_func(comp)
+      fa['calls'].append(g['id']); fb['calls'].append(g['id'])
+      blk['calls'] += [fa['id'], fb['id']]
+      fs = [g, fa, fb] if rng.random() < 0.7 else [fa, fb, g]
+    nmove = rng.randint(1, len(blk['stmts']))
+    for _ in range(nmove):
+      _move_stmt(d, blk, rng.randrange(len(blk['stmts'])), rng.choice(fs[-2:]) if rng.random() < 0.6 else rng.choice(fs))
+    done = True
+  # a helper without writes shared by two blocks of one component, reached through different intermediates
+  by_comp = {}
+  for b in d.blks:
+    if not b['ff']: by_comp.setdefault(b['comp'], []).append(b)
+  for comp, bs in by_comp.items():
+    if len(bs) >= 2 and rng.random() < 0.5:
+      b1, b2 = rng.sample(bs, 2)
+      h = d.new_func(comp)
+      cands = d.readable_objs(comp)
+      if cands and rng.random() < 0.6:
+        r = rng.choice(cands); h['reads'].append(r); h['extra_reads'] = [r]
+      f1, f2 = d.new_func(comp), d.new_func(comp)
+      f1['calls'].append(h['id']); f2['calls'].append(h['id'])
+      b1['calls'].append(f1['id']); b2['calls'].append(f2['id'])
+      done = True
+  if done: d.tags.append('helpers')
+
+def inj_func(d, rng, kind):
+  """defects reached through @s.func helpers"""
+  comp = rng.randrange(len(d.comps))
+  def chain(n, last):
+    """n intermediate helpers ending in a call of `last`; returns the id to call"""
+    cur = last
+    for _ in range(n):
+      f = d.new_func(comp); f['calls'].append(cur); cur = f['id']
+    return cur
+  if kind == 'cycle':
+    fa, fb = d.new_func(comp), d.new_func(comp)
+    if rng.random() < 0.3: fa['calls'].append(fa['id'])          # direct recursion
+    else:
+      fa['calls'].append(fb['id']); fb['calls'].append(chain(rng.randint(0, 1), fa['id']))
+    blk = d.new_blk(comp, False)
+    d.add_write(blk, d.whole(_fresh(d, comp, 'wire', rng.choice(TYPES))), rng, rhs=('k', 0))
+    blk['calls'].append(chain(rng.randint(0, 1), fa['id']))
+    return 'InvalidFuncCallError'
+  o = d.random_object(_own_writable(d, rng, comp), rng)
+  wc = _writer_comp(d, o)
+  if wc != comp: comp = wc
+  drive = d.new_func(comp)
+  drive['stmts'].append((o, 'at', ('k', rng.randrange(1 << twidth(d.otype(o))))))
+  d.drive(o, ('blk', 'helper')); d.marked.add(o)
+  up_a = d.new_blk(comp, False)
+  if kind == 'shared_nested':        # up_a -> fa.. -> drive ; up_b -> fb.. -> drive
+    up_a['calls'].append(chain(rng.randint(1, 2), drive['id']))
+    up_b = d.new_blk(comp, False)
+    up_b['calls'].append(chain(rng.randint(1, 2), drive['id']))
+    if rng.random() < 0.4:             # a diamond on one side
+      up_b['calls'].append(chain(1, drive['id']))
+  elif kind == 'shared_direct':
+    up_a['calls'].append(drive['id'])
+    up_b = d.new_blk(comp, False); up_b['calls'].append(chain(rng.randint(0, 1), drive['id']))
+  elif kind == 'vs_direct':
+    up_a['calls'].append(chain(rng.randint(0, 2), drive['id']))
+    tgt = o
+    if rng.random() < 0.4:
+      rel = d.relatives(o, rng)
+      if rel: tgt = rng.choice(rel)
+    _blk_write(d, rng, comp, tgt)
+  else:                               # vs_net: the object written in a helper is also a reader of a net
+    up_a['calls'].append(chain(rng.randint(1, 2), drive['id']))
+    if not _const_on(d, rng, o):
+      y = d.whole(_fresh(d, d.ohost(o), 'wire', d.otype(o))); _blk_write(d, rng, d.ohost(o), y)
+      at = d.flow_at(y, o)
+      if at is None: return None
+      d.add_conn(y, o, at)
+  return 'MultiWriterError'
+
 def gen_self_overlap(rng):
   """a net whose reader shares bits with its own writer: x[a:b] drives x[c:d] of the same signal"""
   d = Design(next(_uid))
@@ -776,7 +919,7 @@ def has_loop(d):
 def oracle(d):
   """verdict of the property's own reading of the design:
   returns dict(ops, loop, multi, nowriter, ports, nets=[(writer or None, members)], legal)"""
-  res = dict(ops=set(), loop=False, multi=False, nowriter=False, ports=set(), nets=None)
+  res = dict(ops=set(), cycle=d.has_call_cycle(), loop=False, multi=False, nowriter=False, ports=set(), nets=None)
   # operators
   for b in d.blks:
     for (t, op, rhs) in b['stmts']:
@@ -790,7 +933,7 @@ def oracle(d):
   drv = {}
   def add(bit, tok): drv.setdefault(bit, set()).add(tok)
   for b in d.blks:
-    for (t, op, rhs) in b['stmts']:
+    for (t, op, rhs) in d.eff_stmts(b):
       for bit in d.obits(t): add(bit, ('blk', b['id']))
   for bit, toks in drv.items():
     if len(toks) > 1: res['multi'] = True
@@ -818,9 +961,9 @@ def oracle(d):
   res['nets'] = [(writer.get(i), n) for i, n in enumerate(nets)]
   # ports in update blocks
   for b in d.blks:
-    for r in b['reads'] + b.get('extra_reads', []):
+    for r in d.eff_reads(b):
       if d.okind(r) == 'wire' and d.ohost(r) != b['comp']: res['ports'].add(1)
-    for (t, op, rhs) in b['stmts']:
+    for (t, op, rhs) in d.eff_stmts(b):
       k, h = d.okind(t), d.ohost(t)
       if k == 'in' and d.parent(h) != b['comp']: res['ports'].add(2)
       if k == 'out' and h != b['comp']: res['ports'].add(3)
@@ -841,7 +984,7 @@ def oracle(d):
           seen.add(v); todo.append(v)
           k = flow_violation(d, u, v, pairs[frozenset((u, v))])
           if k is not None: res['ports'].add(k)
-  res['legal'] = not (res['ops'] or res['loop'] or res['multi'] or res['nowriter'] or res['ports'])
+  res['legal'] = not (res['ops'] or res['cycle'] or res['loop'] or res['multi'] or res['nowriter'] or res['ports'])
   return res
 
 def flow_violation(d, u, v, ats):
@@ -859,6 +1002,7 @@ def flow_violation(d, u, v, ats):
 def expected_class(res):
   """exception class the stage order of elaborate() implies for an oracle result; None when legal"""
   if res['ops']: return sorted(res['ops'])
+  if res['cycle']: return ['InvalidFuncCallError']
   if res['loop']: return ['InvalidConnectionError']
   if res['multi']: return ['MultiWriterError']
   if any(k in res['ports'] for k in (1, 2, 3, 4)): return ['SignalTypeError']
@@ -1261,6 +1405,9 @@ INJECTORS = {
   'op2_u_for': lambda d, r: inj_op2(d, r, False, 'for'),
   'op2_f_eq': lambda d, r: inj_op2(d, r, True, 'assign'), 'op2_f_at': lambda d, r: inj_op2(d, r, True, 'at'),
   'op2_f_for': lambda d, r: inj_op2(d, r, True, 'for'),
+  'func_shared_nested': lambda d, r: inj_func(d, r, 'shared_nested'), 'func_shared_direct': lambda d, r: inj_func(d, r, 'shared_direct'),
+  'func_vs_direct': lambda d, r: inj_func(d, r, 'vs_direct'), 'func_vs_net': lambda d, r: inj_func(d, r, 'vs_net'),
+  'func_cycle': lambda d, r: inj_func(d, r, 'cycle'),
   'deep_override_vs_blk': lambda d, r: add_deep_override(d, r, 'blk'), 'deep_override_vs_const': lambda d, r: add_deep_override(d, r, 'const'),
 }
 
@@ -1289,7 +1436,8 @@ def design_to_json(d):
     consts=[[list(c['type']), c['value'], c['at']] for c in d.consts],
     conns=[[_o2j(c['a']), _o2j(c['b']), c['at'], c['auto']] for c in d.conns],
     blks=[[b['comp'], b['ff'], [[_o2j(t), op, [rhs[0]] + ([rhs[1]] if rhs[0] == 'k' else [_o2j(rhs[1])] if rhs[0] == 'r' else [])]
-                                for (t, op, rhs) in b['stmts']], [_o2j(r) for r in b.get('extra_reads', [])]] for b in d.blks],
+                                for (t, op, rhs) in b['stmts']], [_o2j(r) for r in b.get('extra_reads', [])], list(b.get('calls', []))] for b in d.blks],
+    funcs=[[f['comp'], [[_o2j(t), op, [rhs[0]] + ([rhs[1]] if rhs[0] == 'k' else [_o2j(rhs[1])] if rhs[0] == 'r' else [])] for (t, op, rhs) in f['stmts']], list(f['calls']), [_o2j(r) for r in f.get('extra_reads', [])]] for f in d.funcs],
     labels=[list(l) for l in d.labels], tags=list(d.tags),
     nest=[[_o2j(o), [list(c) for c in ch]] for o, ch in d.nest.items()])
 
@@ -1309,8 +1457,18 @@ def design_from_json(j):
   for a, b, at, auto in j['conns']:
     d.conns.append(dict(a=_j2o(a), b=_j2o(b), at=at, auto=auto))
     d.nodes.add(_j2o(a)); d.nodes.add(_j2o(b))
-  for comp, ff, stmts, extra in j['blks']:
+  for comp, stmts, calls, extra in j.get('funcs', []):
+    f = d.new_func(comp)
+    f['calls'] = list(calls)
+    if extra:
+      f['extra_reads'] = [_j2o(r) for r in extra]; f['reads'] += f['extra_reads']
+    for t, op, rhs in stmts:
+      r = ('k', rhs[1]) if rhs[0] == 'k' else ('r', _j2o(rhs[1]))
+      f['stmts'].append((_j2o(t), op, r))
+      if r[0] == 'r': f['reads'].append(r[1])
+  for comp, ff, stmts, extra, *rest in j['blks']:
     b = d.new_blk(comp, ff)
+    b['calls'] = list(rest[0]) if rest else []
     for t, op, rhs in stmts:
       r = ('k', rhs[1]) if rhs[0] == 'k' else ('r', _j2o(rhs[1])) if rhs[0] == 'r' else ('inc',)
       b['stmts'].append((_j2o(t), op, r))
@@ -1396,6 +1554,7 @@ def all_variant_orders(d, rng, cap):
   for c in d.comps:
     sts = [('conn', i) for i, cn in enumerate(d.conns) if cn['at'] == c['idx'] and not cn['auto']]
     sts += [('blk', b['id']) for b in d.blks if b['comp'] == c['idx']]
+    sts += [('func', f['id']) for f in d.funcs if f['comp'] == c['idx']]
     per_lists[c['idx']] = sts
     f = 1
     for k in range(2, len(sts) + 1): f *= k
